@@ -1,25 +1,30 @@
 GH = ("g_open, g_failed, g_from, g_nto, g_closed, g_close_ok, g_replies, g_kreplies, g_result0, g_exit, g_msgs, __CPROVER_object_whole(buf), __CPROVER_object_whole(buf2), "
       "__CPROVER_object_whole(fb), failure, bytestooverflow")
 LOC = "ch, i, biglen, len, flagdos, flagsenderok, flagbother, qp, result"
+OUT = "relayclientlen == (relayclient ? g_rclen : 0) && (relayclient == 0 || relayclient == rcbuf) && 0 <= g_rclen && g_rclen < 2000 && databytes + 1 != 0"
 ST = "failure.s == fb && failure.len <= 8 && relayclientlen == (relayclient ? g_rclen : 0) && (relayclient == 0 || relayclient == rcbuf) && 0 <= g_rclen && g_rclen < 2000 && databytes + 1 != 0"
 MSG = ST + " && g_open && !g_from && !g_closed"
-RCP = ST + " && g_open && g_from && !g_closed && failure.len >= 1 && (flagbother == 0 || flagbother == 1) && (flagbother == 0) == (g_nto == 0) && biglen <= 2000000009ul"
-L = lambda head, inv, nth=0, extra="": dict(function="main", head=head, nth=nth, invariants=inv, assigns=LOC + ", " + GH, symbols=["ch", "i", "biglen", "len", "flagdos", "flagsenderok", "flagbother", "qp", "result"])
+RCP = ST + " && g_open && g_from && !g_closed && failure.len >= 1 && (flagbother == 0 || flagbother == 1) && (flagbother == 0) == (g_nto == 0) && g_nto >= 0 && biglen <= 2000000009ul"
+SY = ["ch", "i", "biglen", "len", "flagdos", "flagsenderok", "flagbother", "qp", "result"]
+def L(head, inv, nth, assigns):
+    return dict(function="main", head=head, nth=nth, invariants=inv, assigns=assigns, symbols=SY)
+SZ = " && (databytes == 0 || bytestooverflow != 0 || g_failed)"
 PROOF = dict(
     name="qmtpd_main", properties=["C07", "C20"], units=["harness.c", "stubs2.c", "repo:substdio.c"], mode="dfcc", timeout=900, min_tagged=4, object_bits=12,
     remove_bodies={"harness.c": ["getlen"]}, unwindset=["strlen.0:82", "fmt_str.0:82"],
     loops=[
-        L("for (;;) {", ST, 0),
-        L("while (len > 0) {", MSG, 0),
-        L("while ((ch == 13) && len) {", MSG + " && len >= 0", 0),
-        L("while (len > 0) { /* XXX", MSG, 0),
-        L("for (i = 0;i < len;++i)", MSG + " && 0 <= i && (unsigned long)i <= len && len <= 2000000009ul && flagsenderok == 0", 0),
-        L("for (i = 0;i < len;++i) {", MSG + " && 0 <= i && (unsigned long)i <= len && len < 1000 && (flagsenderok == 0 || flagsenderok == 1)", 0),
-        L("while (biglen > 0) {", ST + " && g_open && g_from && !g_closed && (flagbother == 0 || flagbother == 1) && (flagbother == 0) == (g_nto == 0) && biglen <= 2000000009ul", 0),
-        L("for (;;) {", RCP, 1),
-        L("for (i = 0;i < len;++i)", RCP + " && 0 <= i && (unsigned long)i <= len && len < biglen", 2),
-        L("for (i = 0;i < len;++i) {", RCP + " && 0 <= i && (unsigned long)i <= len && len < biglen && len + (unsigned long)relayclientlen < 1000", 1),
-        L("for (i = 0;i < failure.len;++i)", ST + " && g_closed && 0 <= i && (unsigned)i <= failure.len && len <= 1000 && (g_result0 == 75) == (g_close_ok != 0)", 0),
+        L("for (;;) {", OUT, 0, LOC + ", " + GH),
+        L("while (len > 0) {", MSG + SZ, 0, "len, ch, g_failed, bytestooverflow, g_exit"),
+        L("while ((ch == 13) && len) {", MSG + SZ, 0, "len, ch, g_failed, bytestooverflow, g_exit"),
+        L("while (len > 0) { /* XXX", MSG + SZ, 0, "len, ch, g_exit"),
+        L("for (i = 0;i < len;++i)", MSG + " && 0 <= i && (unsigned long)i <= len && len <= 2000000009ul && flagsenderok == 0", 0, "i, ch, g_exit"),
+        L("for (i = 0;i < len;++i) {", MSG + " && 0 <= i && (unsigned long)i <= len && len < 1000 && (flagsenderok == 0 || flagsenderok == 1)", 0, "i, flagsenderok, __CPROVER_object_whole(buf), g_exit"),
+        L("while (biglen > 0) {", ST + " && g_open && g_from && !g_closed && (flagbother == 0 || flagbother == 1) && (flagbother == 0) == (g_nto == 0) && g_nto >= 0 && biglen <= 2000000009ul", 0,
+          "biglen, len, i, ch, flagbother, failure, __CPROVER_object_whole(fb), __CPROVER_object_whole(buf), g_nto, g_exit"),
+        L("for (;;) {", RCP, 1, "len, biglen, ch, g_exit"),
+        L("for (i = 0;i < len;++i)", RCP + " && 0 <= i && (unsigned long)i <= len && len < biglen", 2, "i, ch, g_exit"),
+        L("for (i = 0;i < len;++i) {", RCP + " && 0 <= i && (unsigned long)i <= len && len < biglen && len + (unsigned long)relayclientlen < 1000", 1, "i, __CPROVER_object_whole(buf), __CPROVER_object_whole(fb), g_exit"),
+        L("for (i = 0;i < failure.len;++i)", ST + " && g_closed && 0 <= i && (unsigned)i <= failure.len && len <= 1000 && (g_result0 == 75) == (g_close_ok != 0)", 0, "i, g_replies, g_kreplies, g_exit"),
     ],
     title="qmail-qmtpd.c main(): per message - buffers never overrun for any lengths on the wire, K reply iff qmail_close reported the message queued, for any byte stream",
     functions=["qmail-qmtpd.c:main", "qmail-qmtpd.c:getcomma"],
